@@ -115,6 +115,67 @@ func verifTargets() reference.Targets {
 	}
 }
 
+// verifDepEntry: a dependent body with the keys that select it, kept as a list so that oracles
+// can state which body a block selects without decoding schema keys.
+type verifDepEntry struct {
+	keys schema.DependencyKeys
+	body *schema.BodySchema
+}
+
+func verifDepMap(es []verifDepEntry) map[schema.SchemaKey]*schema.BodySchema {
+	m := map[schema.SchemaKey]*schema.BodySchema{}
+	for _, e := range es {
+		m[schema.NewSchemaKey(e.keys)] = e.body
+	}
+	return m
+}
+
+// the dependent bodies of "res": by first label; by first label and the "prov" reference, with
+// ("aws") and without ("azr") a labels-only companion.
+func verifResDepEntries() []verifDepEntry {
+	str := schema.LiteralType{Type: cty.String}
+	num := schema.LiteralType{Type: cty.Number}
+	provAddr := func(a, b string) []schema.AttributeDependent {
+		return []schema.AttributeDependent{{Name: "prov", Expr: schema.ExpressionValue{Address: lang.Address{lang.RootStep{Name: a}, lang.AttrStep{Name: b}}}}}
+	}
+	return []verifDepEntry{
+		{schema.DependencyKeys{Labels: []schema.LabelDependent{{Index: 0, Value: "aws"}}}, &schema.BodySchema{
+			Attributes: map[string]*schema.AttributeSchema{
+				"marker": {Constraint: str, IsOptional: true, Description: lang.PlainText("only for aws")},
+				"size":   {Constraint: schema.AnyExpression{OfType: cty.Number}, IsRequired: true},
+			},
+			Blocks: map[string]*schema.BlockSchema{
+				"plain": {Body: &schema.BodySchema{Attributes: map[string]*schema.AttributeSchema{"v": {Constraint: schema.AnyExpression{OfType: cty.Number}, IsOptional: true}}}},
+				"rule": {Body: &schema.BodySchema{Attributes: map[string]*schema.AttributeSchema{"port": {Constraint: num, IsOptional: true}},
+					Extensions: &schema.BodyExtensions{SelfRefs: true}}, MaxItems: 2},
+			},
+			DocsLink: &schema.DocsLink{URL: "https://example.com/aws"},
+			Detail:   "aws thing",
+		}},
+		{schema.DependencyKeys{Labels: []schema.LabelDependent{{Index: 0, Value: "gcp"}}}, &schema.BodySchema{
+			Attributes: map[string]*schema.AttributeSchema{"zone": {Constraint: str, IsOptional: true}},
+		}},
+		{schema.DependencyKeys{Labels: []schema.LabelDependent{{Index: 0, Value: "aws"}}, Attributes: provAddr("aws", "v2")}, &schema.BodySchema{
+			Attributes:  map[string]*schema.AttributeSchema{"marker2": {Constraint: str, IsOptional: true, Description: lang.PlainText("second generation only")}},
+			Detail:      "aws second generation",
+			Description: lang.Markdown("selected by label and prov"),
+		}},
+		{schema.DependencyKeys{Labels: []schema.LabelDependent{{Index: 0, Value: "azr"}}, Attributes: provAddr("azr", "v1")}, &schema.BodySchema{
+			Attributes:  map[string]*schema.AttributeSchema{"zone2": {Constraint: str, IsOptional: true}},
+			Detail:      "azr thing",
+			Description: lang.Markdown("only with prov"),
+		}},
+	}
+}
+
+// verifDepEntriesOf: the dependent-body entries of a top-level block type of SB (nil: not listed).
+func verifDepEntriesOf(blockType string) []verifDepEntry {
+	if blockType == "res" {
+		return verifResDepEntries()
+	}
+	return nil
+}
+
 // SB: dependent bodies, extensions, addressable blocks and attributes.
 func verifSchemaSB() *schema.BodySchema {
 	str := schema.LiteralType{Type: cty.String}
@@ -131,27 +192,13 @@ func verifSchemaSB() *schema.BodySchema {
 				Address: &schema.BlockAddrSchema{Steps: schema.Address{schema.LabelStep{Index: 0}, schema.LabelStep{Index: 1}},
 					AsReference: true, ScopeId: lang.ScopeId("resource"), DependentBodyAsData: true, InferDependentBody: true, DependentBodySelfRef: true},
 				Body: &schema.BodySchema{
-					Attributes: map[string]*schema.AttributeSchema{"common": {Constraint: str, IsOptional: true}},
+					Attributes: map[string]*schema.AttributeSchema{
+						"common": {Constraint: str, IsOptional: true},
+						"prov":   {Constraint: schema.Reference{OfScopeId: lang.ScopeId("pv")}, IsOptional: true, IsDepKey: true},
+					},
 					Extensions: &schema.BodyExtensions{Count: true, ForEach: true, DynamicBlocks: true, SelfRefs: true},
 				},
-				DependentBody: map[schema.SchemaKey]*schema.BodySchema{
-					schema.NewSchemaKey(schema.DependencyKeys{Labels: []schema.LabelDependent{{Index: 0, Value: "aws"}}}): {
-						Attributes: map[string]*schema.AttributeSchema{
-							"marker": {Constraint: str, IsOptional: true, Description: lang.PlainText("only for aws")},
-							"size":   {Constraint: schema.AnyExpression{OfType: cty.Number}, IsRequired: true},
-						},
-						Blocks: map[string]*schema.BlockSchema{
-							"plain": {Body: &schema.BodySchema{Attributes: map[string]*schema.AttributeSchema{"v": {Constraint: schema.AnyExpression{OfType: cty.Number}, IsOptional: true}}}},
-							"rule": {Body: &schema.BodySchema{Attributes: map[string]*schema.AttributeSchema{"port": {Constraint: num, IsOptional: true}},
-								Extensions: &schema.BodyExtensions{SelfRefs: true}}, MaxItems: 2},
-						},
-						DocsLink: &schema.DocsLink{URL: "https://example.com/aws"},
-						Detail:   "aws thing",
-					},
-					schema.NewSchemaKey(schema.DependencyKeys{Labels: []schema.LabelDependent{{Index: 0, Value: "gcp"}}}): {
-						Attributes: map[string]*schema.AttributeSchema{"zone": {Constraint: str, IsOptional: true}},
-					},
-				},
+				DependentBody: verifDepMap(verifResDepEntries()),
 			},
 			// dependent body selected by an attribute value
 			"mod": {
@@ -164,6 +211,21 @@ func verifSchemaSB() *schema.BodySchema {
 						Attributes: map[string]*schema.AttributeSchema{"input": {Constraint: schema.AnyExpression{OfType: cty.String}, IsOptional: true}},
 					},
 				},
+			},
+			// address steps taken from an attribute value, optional and mandatory
+			"pv": {
+				Labels: []*schema.LabelSchema{{Name: "name"}},
+				Address: &schema.BlockAddrSchema{Steps: schema.Address{schema.StaticStep{Name: "pv"}, schema.LabelStep{Index: 0}, schema.AttrValueStep{Name: "alias", IsOptional: true}},
+					AsReference: true, ScopeId: lang.ScopeId("pv")},
+				Body: &schema.BodySchema{Attributes: map[string]*schema.AttributeSchema{
+					"alias": {Constraint: schema.AnyExpression{OfType: cty.DynamicPseudoType}, IsOptional: true}, "region": {Constraint: str, IsOptional: true}}},
+			},
+			"pw": {
+				Labels: []*schema.LabelSchema{{Name: "name"}},
+				Address: &schema.BlockAddrSchema{Steps: schema.Address{schema.StaticStep{Name: "pw"}, schema.AttrValueStep{Name: "alias"}, schema.LabelStep{Index: 0}},
+					AsReference: true, ScopeId: lang.ScopeId("pv")},
+				Body: &schema.BodySchema{Attributes: map[string]*schema.AttributeSchema{
+					"alias": {Constraint: schema.AnyExpression{OfType: cty.DynamicPseudoType}, IsOptional: true}}},
 			},
 			// variable-like block: type of an attribute
 			"variable": {
@@ -303,6 +365,10 @@ func verifSeedList() []verifSeed {
 		{"heredoc", "str = <<EOT\nhello\nEOT\n", 0},
 		{"unterminated-call", "astr = f1( \"x\", \n", 0},
 		{"comment", "# c\nstr = \"x\" # t\n", 0},
+		// multi-byte text before a name or label on the same line
+		{"mb-comment-prefix", "  /* é */ s\n", 0},
+		{"mb-comment-label", "blk /* é */ \"a\" {\n}\n", 0},
+		{"mb-two-prefix", "  /* éé */ st\n", 0},
 		// empty values: completion offers whole-value snippets
 		{"empty-obj", "obj = \n", 0},
 		{"empty-tup", "tup = \n", 0},
@@ -355,6 +421,17 @@ func verifSeedList() []verifSeed {
 		{"res-dynamic", "res \"aws\" \"a\" {\n  size = 1\n  dynamic \"rule\" {\n    for_each = var.x\n    content {\n      port = 1\n    }\n  }\n}\n", 2},
 		{"res-partial-label", "res \"a\n", 2},
 		{"res-one-label", "res \"aws\" {\n}\n", 2},
+		{"res-aws-v2", "res \"aws\" \"a\" {\n  prov = aws.v2\n  marker2 = \"x\"\n}\n", 2},
+		{"res-azr", "res \"azr\" \"z\" {\n  prov = azr.v1\n  zone2 = \"z\"\n}\n", 2},
+		{"res-azr-noprov", "res \"azr\" \"z\" {\n  zone2 = \"z\"\n}\n", 2},
+		{"res-az-label", "res \"az\" \"z\" {\n}\n", 2},
+		{"res-empty-label", "res \"\" \"z\" {\n}\n", 2},
+		{"pv-noalias", "pv \"a\" {\n  region = \"r\"\n}\n", 2},
+		{"pv-alias", "pv \"a\" {\n  alias = \"west\"\n}\n", 2},
+		{"pv-alias-num", "pv \"a\" {\n  alias = 42\n}\npv \"a\" {\n}\n", 2},
+		{"pv-alias-ref", "pv \"a\" {\n  alias = var.x\n}\n", 2},
+		{"pw-noalias", "pw \"a\" {\n}\n", 2},
+		{"pw-alias", "pw \"a\" {\n  alias = \"east\"\n}\n", 2},
 		{"mod-dep", "mod \"m\" {\n  source = \"./m\"\n  input = \"i\"\n}\n", 2},
 		{"mod-nodep", "mod \"m\" {\n  source = \"./other\"\n  input = \"i\"\n}\n", 2},
 		{"variable", "variable \"v\" {\n  type = list(string)\n  default = [ \"a\" ]\n}\n", 2},
